@@ -25,7 +25,7 @@ for pid in props:
         "evidence_file": f"evidence/{pid}.json",
         "replay_cmd_template": f"./check {pid} --replay {{path}}",
         "engine": c["engine"],
-        "level_claimed": {"category": "exploration", "text": c["text"], "design_ref": c["ref"]},
+        "level_claimed": {"category": c.get("category", "exploration"), "text": c["text"], "design_ref": c["ref"]},
         "level_note": c["note"],
         "technique": c["technique"],
     })
